@@ -142,9 +142,11 @@ def rollbackTo (previous : Id) : Nat → Mgr → Mgr × Bool
       | none => (m, false)
       | some m' => rollbackTo previous fuel m'
 
-/-- `canRollback` -/
+/-- `canRollback`: refused when not above the stable height; the first block of an account (height 1, previous =
+    zero identifier) has no previous block to look up; otherwise the block at height-1 must be the claimed previous -/
 def canRollback (s : PState) (m : Mgr) (b : Blk) : Option AddRes :=
   if (lastId s.confirmed).2 ≥ b.height then some .olderThanStable
+  else if b.height = 1 ∧ b.prev = zeroId then none
   else match byHeight (m.base ++ m.pooled) b.prev.2 with
     | none => some .missingPrevious
     | some tp => if tp.id ≠ b.prev then some .previousMismatch else none
@@ -196,26 +198,25 @@ inductive RebuildRes where
   | noManager | emptied | rebuilt | failed | nilDeref
   deriving DecidableEq, Repr
 
-/-- `InsertMomentum` → `rebuild` for this address after the momentum extended the confirmed chain by `nb`.
-    `skipped`: the loop of `rebuild` returned at an earlier address whose blocks did not re-apply, so this address
-    keeps its old manager (built on the old stable database). -/
-def insertMomentum (s : PState) (nb : List Blk) (skipped : Bool) : PState × RebuildRes :=
+/-- `InsertMomentum` → `rebuild` for this address after the momentum extended the confirmed chain by `nb`. Every address
+    is rebuilt on its own (a failure drops this address's pooled blocks and the loop goes on — `Gen.rebuildLoopReturns`);
+    blocks of type ContractSend are not re-applied on their own (they are the descendants carried by a contract
+    receive). -/
+def insertMomentum (s : PState) (nb : List Blk) : PState × RebuildRes :=
   let conf := s.confirmed ++ nb
   match s.mgr with
   | none => ({ confirmed := conf, mgr := none }, .noManager)
   | some old =>
-    if skipped then ({ confirmed := conf, mgr := some old }, .noManager)
-    else
-      let view := old.base ++ old.pooled
-      let lo := (lastId conf).2 + 1
-      let hi := (lastId view).2
-      match uncommittedOf view lo (hi + 1 - lo) with
-      | none => ({ confirmed := conf, mgr := none }, .nilDeref)
-      | some [] => ({ confirmed := conf, mgr := none }, .emptied)
-      | some unc =>
-        match addAll ⟨conf, []⟩ unc with
-        | none => ({ confirmed := conf, mgr := none }, .failed)
-        | some m => ({ confirmed := conf, mgr := some m }, .rebuilt)
+    let view := old.base ++ old.pooled
+    let lo := (lastId conf).2 + 1
+    let hi := (lastId view).2
+    match uncommittedOf view lo (hi + 1 - lo) with
+    | none => ({ confirmed := conf, mgr := none }, .nilDeref)
+    | some [] => ({ confirmed := conf, mgr := none }, .emptied)
+    | some unc =>
+      match addAll ⟨conf, []⟩ (unc.filter (fun b => !isContractSend b.btype)) with
+      | none => ({ confirmed := conf, mgr := none }, .failed)
+      | some m => ({ confirmed := conf, mgr := some m }, .rebuilt)
 
 /-- `DeleteMomentum`: all managers are dropped; the rolled-back momentum takes its account blocks with it -/
 def deleteMomentum (s : PState) (keep : Nat) : PState :=
@@ -236,7 +237,7 @@ inductive Op where
 
 def step (s : PState) : Op → PState
   | .add b f => (addBlock s b f).1
-  | .insert nb => (insertMomentum s nb false).1
+  | .insert nb => (insertMomentum s nb).1
   | .delete k => deleteMomentum s k
 
 end ZV.Pool
